@@ -234,9 +234,16 @@ def run(ctx):
                     note='window arithmetic, chunk assignment, declared-vs-written, store lookup')
     res, path, n = ctx.generate('Waveforms', 'Gen_Waveforms%s.cfg' % sfx, timeout=3000)
     k = 0
+    # every case costs a few milliseconds (real files are written): beyond 200 k generated cases a regular
+    # stride over the (sorted) case file is replayed and the run is marked as not exhaustive
+    stride = max(1, -(-n // 200000))
+    if stride > 1:
+        ctx.exhaustive = False
     with tmp_dir(ctx) as d:
         for case in tlc.read_cases(path):
             k += 1
+            if k % stride:
+                continue
             # the sample type x factor dimension is replayed on a third of the geometry (it only
             # changes dtypes); every geometry is replayed at least three times
             ctx.evaluations += 1
